@@ -242,18 +242,45 @@ def certification(pid):
         bres, bsigs = validate(pid, btraces, bd)
         report(rep, pid, bres, bsigs, "certification build: behaviour differs from Mac.tla's model of the handler",
                extra_fields={"cert": True})
+        # the remote multicast setup handler (cargo feature `multicast`, FPort 200) under the same robustness clauses
+        md = os.path.join(wd, "mcast")
+        os.makedirs(md, exist_ok=True)
+        core.run_vh("mcwalk", md, shards=core.NCPU, cert=True,
+                    extra=["regions=EU868,US915"] if core.tier() == "thorough" else [])
+        mtraces = sorted(glob.glob(os.path.join(md, "mac.*.ndjson")))
+        mres, _ = validate_cert(pid, mtraces, md)
+        mviol = 0
+        for r in mres:
+            lines = sorted({int(_LINE.match(m).group(1)) for m in r["mismatches"] if _LINE.match(m)})
+            if not r["accepted"] and not lines:
+                lines = [r.get("matched", 0) + 1]
+            for ln in lines:
+                mviol += 1
+                if mviol > 20:
+                    continue
+                hist = history_of(r["trace"], ln)
+                mm = [m for m in r["mismatches"] if _LINE.match(m) and int(_LINE.match(m).group(1)) == ln]
+                rep.violation({"property": pid, "cert": True, "ops": ops_of(hist), "failing_event": {k: hist[-1][k] for k in hist[-1] if k != "opj"},
+                               "mismatch": [m[:1500] for m in mm[:4]]},
+                              f"multicast build: {hist[0]['region']}/{hist[0]['front']}{'/classC' if hist[0]['classc'] else ''} "
+                              f"event {len(hist)}: {(mm[0] if mm else 'trace rejected')[:260]}")
+        mn, mhist, _, mdistinct = summarise(mtraces)
         n, hist, kinds, distinct = summarise(traces)
-        return {"_states": sum(r["distinct"] for r in res) + sum(r["distinct"] for r in bres),
+        n, hist, distinct = n + mn, hist + mhist, distinct + mdistinct
+        return {"_states": sum(r["distinct"] for r in res) + sum(r["distinct"] for r in bres) + sum(r["distinct"] for r in mres),
                 "_transitions": sum(r["generated"] for r in res) + sum(r["generated"] for r in bres),
                 "_evaluations": n, "_distinct": distinct,
                 "certification_build": {"histories": hist, "events": n, "module": "CertTrace.tla (all histories) + MacTrace.tla (behaviour of the non-panicking ones)",
                                         "histories_held_to_the_behaviour_model": kept,
+                                        "multicast_setup_histories": mhist,
                                         "known_signatures_matched": seen,
                                         "rule": "device built with cargo feature `certification`: every TS009 command (well-formed, malformed, unknown, "
                                                 "several per frame, EchoPayloadReq up to 242 octets) as the FPort-224 payload of an authentic downlink in "
                                                 "RX1 / RX2 / Class C listening, on nb, async and async+ClassC, followed by further uplinks; clauses: no "
                                                 "panic or hang, every transmitted frame a well-formed uplink with a valid MIC and a strictly increasing "
-                                                "counter, the device still transmits afterwards"}}
+                                                "counter, the device still transmits afterwards. The same clauses for the remote multicast setup "
+                                                "handler (feature `multicast`, FPort 200): every TS005 setup command, well-formed, truncated, unknown and "
+                                                "repeated up to 242 times in one frame, on the async front-end with and without Class C"}}
     return fn
 
 
